@@ -547,7 +547,7 @@ func (H) Execute(scAny any, cfg simrt.Config, st *core.Stats) (*simrt.Outcome, *
 		return out, v
 	}
 	if out.Truncated {
-		return out, nil
+		return out, core.NoProgress(out)
 	}
 	for si := 0; si < r.nsubs; si++ {
 		sb := r.subs[si]
